@@ -121,13 +121,93 @@ Definition default_params : params :=
 (* the compactor's own fetcher ignores marks older than deleteDelay / divisor *)
 Definition compactor_ignore_delay (d : Z) : Z := compact_ignore_delay_expr d.
 
+(* ---- the compactor's steps as the code takes them ------------------------------------
+   Garbage collection (Syncer.GarbageCollect): a block is marked when the duplicate
+   filter hid it in the compactor's OWN view — marks younger than
+   compact_ignore_delay_expr(deleteDelay) are still visible there — and it is not
+   marked yet.  This is the code's rule; it is NOT the guard [replaced] of [Mark]. *)
+Definition compactor_view (p : params) (st : state) : list Z :=
+  sync_view (now st) (compactor_ignore_delay (deleteDelay p)) (bucket st).
+
+Definition gc_enabled (p : params) (st : state) (i : Z) : bool :=
+  match find_m (bucket st) i with
+  | Some x => unmarked x
+              && mark_visible (now st) (compactor_ignore_delay (deleteDelay p)) x
+              && negb (mem i (compactor_view p st))
+  | None => false
+  end.
+
+Inductive clabel := L (l : label) | GC (i : Z).
+
+Definition mark_block (t i : Z) (b : list mblk) : list mblk :=
+  map (fun y => if bid (blk_of y) =? i then mk_mblk (blk_of y) (Some t) else y) b.
+
+Definition step_code (p : params) (u : list Z) (st : state) (l : clabel) : option state :=
+  match l with
+  | L l' => step p u st l'
+  | GC i => if gc_enabled p st i
+            then Some (mk_state (now st) (mark_block (now st) i (bucket st)) (gws st)) else None
+  end.
+
+Fixpoint run_code (p : params) (u : list Z) (st : state) (ls : list clabel) : option state :=
+  match ls with
+  | [] => Some st
+  | l :: r => match step_code p u st l with Some st' => run_code p u st' r | None => None end
+  end.
+
+(* ---- the real compactor's bucket operations, replayed against the guards ------------ *)
+Inductive lop := OUpload (nb : blk) | OMark (i : Z) | ODelete (i : Z).
+
+(* with the guards of [step]: None = the real compactor took a step the protocol does not allow *)
+Definition apply_op (b : list mblk) (o : lop) : option (list mblk) :=
+  match o with
+  | OUpload nb => if mem (bid nb) (ids b) then None else Some (mk_mblk nb None :: b)
+  | OMark i => match find_m b i with
+               | Some x => if unmarked x && replaced b x then Some (mark_block 0 i b) else None
+               | None => None
+               end
+  | ODelete i => match find_m b i with
+                 | Some x => if unmarked x then None else Some (filter (fun y => negb (bid (blk_of y) =? i)) b)
+                 | None => None
+                 end
+  end.
+
+Fixpoint apply_log (b : list mblk) (ops : list lop) : option (list mblk) :=
+  match ops with
+  | [] => Some b
+  | o :: r => match apply_op b o with Some b' => apply_log b' r | None => None end
+  end.
+
+(* without the guards: what the bucket looks like afterwards *)
+Definition apply_op_raw (b : list mblk) (o : lop) : list mblk :=
+  match o with
+  | OUpload nb => mk_mblk nb None :: b
+  | OMark i => map (fun y => if (bid (blk_of y) =? i) && unmarked y then mk_mblk (blk_of y) (Some 0) else y) b
+  | ODelete i => filter (fun y => negb (bid (blk_of y) =? i)) b
+  end.
+
+Definition apply_log_raw (b : list mblk) (ops : list lop) : list mblk := fold_left apply_op_raw ops b.
+
+(* first operation the guards reject *)
+Fixpoint first_rejected (b : list mblk) (ops : list lop) (k : nat) : option nat :=
+  match ops with
+  | [] => None
+  | o :: r => match apply_op b o with Some b' => first_rejected b' r (S k) | None => Some k end
+  end.
+
 (* ---- cases: one gateway sync of the real filter chain on a generated bucket ---- *)
 Inductive case :=
-| CSyncView (t delay : Z) (b : list mblk) (kept_ids : list Z).
+| CSyncView (t delay : Z) (b : list mblk) (kept_ids : list Z)
+(* a run of the real BucketCompactor.Compact: initial bucket, its bucket operations in
+   order, and the block ids / marked ids in the bucket afterwards *)
+| CMarkLog (b : list mblk) (ops : list lop) (final_ids final_marked : list Z).
 
 Definition corr_ok (c : case) : bool :=
   match c with
   | CSyncView t delay b k => set_eqb k (sync_view t delay b) && (length k =? length (sync_view t delay b))%nat
+  | CMarkLog b ops fi fm =>
+      let fin := apply_log_raw b ops in
+      set_eqb fi (ids fin) && set_eqb fm (ids (filter (fun x => negb (unmarked x)) fin))
   end.
 
 (* what a sync must establish for the protocol: every block of the view passes the
@@ -142,4 +222,8 @@ Definition view_pred (t delay : Z) (b : list mblk) (k : list Z) : bool :=
 Definition pred_ok (c : case) : bool :=
   match c with
   | CSyncView t delay b k => view_pred t delay b k
+  | CMarkLog b ops _ _ =>
+      (* every step the real compactor took is a step of the protocol: in particular
+         a block is marked only while all its sources are in other unmarked blocks *)
+      match apply_log b ops with Some _ => true | None => false end
   end.
